@@ -21,7 +21,8 @@ Put(f, k, v) == [x \in DOMAIN f \cup {k} |-> IF x = k THEN v ELSE f[x]]
 SeqRange(s)  == {s[j] : j \in DOMAIN s}
 
 UnownedSlots == {"U"}
-LocalKinds   == {"ping", "quit", "unknown", "arity", "auth", "authbad", "reject"}
+\* "bad": bytes that are not a RESP request (C12): never forwarded; the connection is answered with an error or closed
+LocalKinds   == {"ping", "quit", "unknown", "arity", "auth", "authbad", "reject", "bad"}
 MultiKinds   == {"mget", "del", "mset"}
 ReadKinds    == {"get", "mget"}
 
@@ -68,6 +69,7 @@ FitsLocal(k, rep) ==
     [] k = "unknown" -> rep.t = "perr" /\ rep.txt = "unknown command"
     [] k = "arity"   -> rep.t = "perr" /\ rep.txt = "wrong number of arguments"
     [] k = "reject"  -> rep.t = "perr"          \* (which error: decided by CmdTrace against the command table)
+    [] k = "bad"     -> rep.t = "perr"
     [] OTHER         -> rep.t \in {"ok", "perr"}
 
 TypeFits(k, rep) ==
@@ -164,7 +166,8 @@ ReqResolved(m, c, i, final) ==
 
 WaitProp(m, c, i) ==
   LET fs == Frags(m, c, i) IN
-  IF \E f \in fs : f \notin m.rd /\ f \notin m.tmo /\ f \notin m.expired THEN "C15"
+  IF Sent(m, c)[i].k = "bad" THEN "C12"      \* invalid input neither answered with an error nor the connection closed
+  ELSE IF \E f \in fs : f \notin m.rd /\ f \notin m.tmo /\ f \notin m.expired THEN "C15"
   ELSE IF \E f \in fs : f \notin m.rd THEN "C16"
   ELSE "C09"
 
@@ -267,6 +270,7 @@ MonApply(m, e) ==
              qs  == {q \in DOMAIN snt : snt[q].k = "quit"}
              lim == IF qs = {} THEN Len(snt) ELSE CHOOSE q \in qs : \A x \in qs : q <= x
              v   == IF Cst(m, e.c) # "open" \/ m.connLost \/ m.expired # {} THEN {}
+                    ELSE IF \E q \in DOMAIN snt : snt[q].k = "bad" THEN {}     \* closing is a legitimate answer to invalid input
                     ELSE IF n < lim THEN {<<"C01", e.c, n + 1, "closed-with-replies-outstanding">>}
                     ELSE IF qs = {} THEN {<<"C01", e.c, n + 1, "closed-without-cause">>}
                     ELSE {}
